@@ -60,13 +60,13 @@ type Decl struct {
 
 // Layout controls the surface choices.
 type Layout struct {
-	Seed     int64
-	Units    []string // candidate indentation units; one is chosen per block
-	Blank    float64  // probability of a blank / whitespace-only line before a line
-	Comment  float64  // probability of a whole-line comment before a line
-	Canonical bool    // 4 spaces, no blank lines, no comments
-	TabMix    float64 // probability of replacing a 4-space unit of a line's leading spaces by a tab
-	Scale     int     // repeat every indentation unit this many times (0/1 = unchanged)
+	Seed      int64
+	Units     []string // candidate indentation units; one is chosen per block
+	Blank     float64  // probability of a blank / whitespace-only line before a line
+	Comment   float64  // probability of a whole-line comment before a line
+	Canonical bool     // 4 spaces, no blank lines, no comments
+	TabMix    float64  // probability of replacing a 4-space unit of a line's leading spaces by a tab
+	Scale     int      // repeat every indentation unit this many times (0/1 = unchanged)
 }
 
 func TypeText(sh Shape) string {
